@@ -360,6 +360,7 @@ def r4_parent(chk, cls):
                     key = f"{ci.module.relpath}:{owner}.{name}:parent-set:{short(ins, 40)}"
                     src = norm(node)
                     ok = False
+                    cond_stores = []
                     if isinstance(what, (ast.Call, ast.ListComp, ast.GeneratorExp, ast.List)):
                         w = norm(what)
                         if "parent=self" in w or w in ("list()", "[]"):
@@ -372,10 +373,25 @@ def r4_parent(chk, cls):
                                 recv = norm(t.targets[0].value)
                                 if nm is None or recv == nm:
                                     ok = True
+                                    if nm is not None and recv == nm:
+                                        cond_stores.append(t)
                                 else:
                                     for lp in walk_no_nested(node):
                                         if isinstance(lp, ast.For) and norm(lp.target) == recv and (norm(lp.iter) == nm or norm(lp.iter) == f"self.{cont}"):
                                             ok = True
+                    if ok and cond_stores:
+                        # ... on every normal way through the method: a store that is skipped when the element already has a parent
+                        # (`if bond.parent is None:`) leaves an element that came from another molecule (evolve() keeps the parent) with
+                        # that molecule as its parent
+                        from ..cfg import CFG as _CFG
+                        cfg = _CFG(node)
+                        sn = {nd.id for nd in cfg.nodes if nd.kind == "stmt" and any(nd.ast is t_ for t_ in cond_stores)}
+                        insn = [nd.id for nd in cfg.nodes if nd.kind == "stmt" and any(x is ins for x in ast.walk(nd.ast))]
+                        flow = lambda a, b, lab: lab not in ("exc", "raise", "except")
+                        if insn and cfg.path([cfg.entry], set(insn), avoid=sn, edge_ok=flow) is not None and cfg.path(insn, {cfg.exit}, avoid=sn, edge_ok=flow) is not None:
+                            chk.fail("C05.R4", key, f"{ci.module.relpath}:{cond_stores[0].lineno}", f"{owner}.{name} inserts `{nm}` into {cont}, but `{short(cond_stores[0], 40)}` does not run on every way "
+                                     "through the method: an element that already carries a parent (a bond made by evolve() from another molecule's bond) keeps the other molecule as its parent")
+                            continue
                     chk.decide(ok, "C05.R4", key, f"{ci.module.relpath}:{ins.lineno}", "inserted element(s) get parent = self",
                                f"{owner}.{name} inserts into {cont} without setting the element's parent: the element reports no (or another) molecule and a wrong index")
 
